@@ -337,15 +337,37 @@ impl Gen {
             };
             tags.push(vec!["expiration".to_string(), t.to_string()]);
         }
-        let n = self.rng.weighted(&[25, 30, 25, 12, 8]);
+        let mut n = self.rng.weighted(&[25, 30, 25, 12, 8]);
+        if self.rng.chance(1, 150) {
+            // a wide event: dozens of tags
+            n = self.rng.range(40, 120) as usize;
+        }
         for _ in 0..n {
-            let shape = self.rng.weighted(&[70, 8, 5, 5, 8, 4]);
+            let shape = self.rng.weighted(&[66, 8, 5, 5, 8, 4, 4]);
             let letter = self.rng.pick(&self.letters).to_string();
             let t = match shape {
                 0 => vec![letter, self.tag_value()],
                 1 => vec![letter, self.tag_value(), self.tag_value()], // multi-string
                 2 => vec![letter],                                     // name only
                 3 => vec![self.rng.pick(&["client", "nonce", "", "1", "#"]).to_string(), self.tag_value()],
+                6 => {
+                    // names and values from the wider NIP vocabulary (none of them means anything
+                    // to the store's contract)
+                    let name = *self.rng.pick(&["-", "k", "K", "E", "A", "I", "relay", "alt", "delegation", "subject", "r", "q", "expiration", "published_at", "proxy", "L", "l"]);
+                    let val = match self.rng.below(6) {
+                        0 => "wss://relay.example.com:7777/path?x=1".to_string(),
+                        1 => self.rng.below(100_000).to_string(),
+                        2 => "18446744073709551615".to_string(),
+                        3 => hex(&self.rng.pick(&self.authors).clone()),
+                        4 => format!("30023:{}:a:b", hex(&self.rng.pick(&self.authors).clone())),
+                        _ => self.tag_value(),
+                    };
+                    if self.rng.chance(1, 5) {
+                        vec![name.to_string()]
+                    } else {
+                        vec![name.to_string(), val]
+                    }
+                }
                 4 => {
                     // repeat an earlier tag exactly
                     if let Some(t) = tags.last() {
@@ -651,7 +673,10 @@ impl Gen {
         };
         let known: Vec<EvSpec> = self.model.events.values().cloned().collect();
         if use_ids {
-            let n = 1 + self.rng.weighted(&[40, 30, 20, 10]);
+            let mut n = 1 + self.rng.weighted(&[40, 30, 20, 10]);
+            if self.rng.chance(1, 60) {
+                n = self.rng.range(20, 70) as usize; // a wide id list
+            }
             for _ in 0..n {
                 if !known.is_empty() && self.rng.chance(5, 6) {
                     q.ids.push(self.rng.pick(&known).id);
@@ -672,7 +697,10 @@ impl Gen {
             q.authors.dedup();
         }
         if use_kinds {
-            let n = 1 + self.rng.weighted(&[55, 30, 15]);
+            let mut n = 1 + self.rng.weighted(&[55, 30, 15]);
+            if self.rng.chance(1, 60) {
+                n = self.rng.range(15, 40) as usize; // a wide kind list
+            }
             for _ in 0..n {
                 if !known.is_empty() && self.rng.chance(5, 6) {
                     q.kinds.push(self.rng.pick(&known).kind);
@@ -772,7 +800,7 @@ impl Gen {
             4 => Some(k.saturating_sub(1)),
             5 => Some(k),
             6 => Some(k + 1),
-            _ => Some(3),
+            _ => Some(*self.rng.pick(&[3u32, 499, 500, 501, u32::MAX - 1, u32::MAX])),
         };
         q
     }
@@ -798,6 +826,58 @@ impl Gen {
                 *x = 0;
             }
         }
+        if self.p.prop == "C05" {
+            // populate first: 8-25 events (versions, deletions and removals among them), so that
+            // the filters that follow have something to select from
+            let n_pre = self.rng.range(8, 25);
+            for _ in 0..n_pre {
+                match self.rng.weighted(&[60, 20, 8, 8, 4]) {
+                    0 => {
+                        let e = self.new_event();
+                        self.apply_store_to_gen_model(&e);
+                        ops.push(Op::Store(e));
+                    }
+                    1 => {
+                        let e = self.new_version();
+                        self.apply_store_to_gen_model(&e);
+                        ops.push(Op::Store(e));
+                    }
+                    2 => {
+                        let e = self.deletion();
+                        self.apply_store_to_gen_model(&e);
+                        ops.push(Op::Store(e));
+                    }
+                    3 => {
+                        let known: Vec<B32> = self.model.retrievable.iter().copied().collect();
+                        if !known.is_empty() {
+                            let id = *self.rng.pick(&known);
+                            let _ = self.model.apply_remove(&id);
+                            ops.push(Op::Remove(id));
+                        }
+                    }
+                    _ => ops.push(Op::Reopen(*self.rng.pick(&[ReopenKind::Drop, ReopenKind::Close, ReopenKind::Copy]))),
+                }
+            }
+        }
+        if matches!(self.p.prop, "C09" | "C05" | "C17") && self.rng.chance(1, 40) {
+            // a long line of versions at one address, arriving in shuffled time order
+            let pk = *self.rng.pick(&self.authors);
+            let param = self.rng.chance(1, 2);
+            let kind = if param { *self.rng.pick(&self.kinds_param) } else { *self.rng.pick(&self.kinds_repl) };
+            let d = self.rng.pick(&self.dvals).clone();
+            let n = self.rng.range(10, 26);
+            let mut ats: Vec<u64> = (0..n).map(|i| T0 + i / 2).collect();
+            self.rng.shuffle(&mut ats);
+            for at in ats {
+                let mut tags = vec![];
+                if param {
+                    tags.push(vec!["d".to_string(), d.clone()]);
+                }
+                let e = EvSpec { id: self.rng.bytes32(), pk, kind, at, tags, content: vec![] };
+                self.apply_store_to_gen_model(&e);
+                ops.push(Op::Store(e));
+            }
+        }
         if self.p.prop == "C09" && self.rng.chance(1, 8) {
             // kind classification sweep: two versions per kind, across the class boundaries and
             // anywhere in the u16 range; replaceable kinds must displace / refuse, others coexist
@@ -819,6 +899,7 @@ impl Gen {
                 }
             }
         }
+        let n_ops = n_ops + ops.len();
         while ops.len() < n_ops {
             let k = self.rng.weighted(&w);
             match OPK[k] {
